@@ -62,19 +62,42 @@ class Op(object):
         self.inputs = inputs      # names of ctx arrays handed to the call (must stay unmodified)
 
 
-def spectrum_close(a, b, tol=1e-8):
-    a = np.sort(np.real(np.asarray(a, dtype=complex))); b = np.sort(np.real(np.asarray(b, dtype=complex)))
+def _plot(fn, *a, **kw):
+    import matplotlib
+    matplotlib.use('Agg')
+    import matplotlib.pyplot as plt
+    try:
+        return fn(*a, save=False, gridx=11, **kw) and None
+    finally:
+        plt.close('all')
+
+
+def spectrum_close(a, b, tol=1e-8, buckling=False):
+    """lowest values of two eigen-solutions agree to solver precision.
+    buckling=True: the solvers work on mu = -1/lambda around the shift 1, so mu carries an ABSOLUTE error of a few eps; the
+    comparison is made on mu (|1/a - 1/b| <= 1e-14 + tol*|mu|): multipliers of amplitudes the geometric matrix does not
+    touch (mu = +-eps noise, lambda = +-1e16 or inf, different at every call) compare equal, a start-vector dependent 6e-9
+    relative difference at lambda = 2.6e7 does too, a genuine 1e-6 relative change of any multiplier below 1e8 does not."""
+    a = np.real(np.asarray(a, dtype=complex)); b = np.real(np.asarray(b, dtype=complex))
+    if buckling:
+        with np.errstate(divide='ignore', invalid='ignore'):
+            ma = np.sort(np.where(np.isfinite(a) & (a != 0), 1.0 / a, 0.0)); mb = np.sort(np.where(np.isfinite(b) & (b != 0), 1.0 / b, 0.0))
+        n = min(len(ma), len(mb))
+        if n == 0:
+            return len(ma) == len(mb)
+        # compare the n largest |mu| (the lowest |lambda|) as sorted lists from both ends
+        k = min(n, 5)
+        lo = np.abs(ma[:k] - mb[:k]) <= 1e-14 + tol * (np.abs(ma[:k]) + np.abs(mb[:k]))
+        hi = np.abs(ma[-k:] - mb[-k:]) <= 1e-14 + tol * (np.abs(ma[-k:]) + np.abs(mb[-k:]))
+        return bool(lo.all() and hi.all()) if len(ma) == len(mb) else bool(hi.all() and lo.all())
+    a = np.sort(a); b = np.sort(b)
     n = min(len(a), len(b), 5)
     if n == 0:
         return len(a) == len(b)
-    # multipliers of amplitudes the geometric matrix does not touch come out as +-1/eps noise: not part of the result
-    lim = 1e9 * max(np.abs(a[np.isfinite(a)]).min() if np.isfinite(a).any() else 1.0, 1e-300)
-    a = a[np.isfinite(a) & (np.abs(a) < lim)][:n]; b = b[np.isfinite(b) & (np.abs(b) < lim)][:n]
+    a = a[np.isfinite(a)][:n]; b = b[np.isfinite(b)][:n]
     if len(a) != len(b):
         return False
-    # the buckling solver works on mu = -1/lambda around the shift 1: an absolute error of a few eps on mu is an
-    # error of a few eps*lambda^2 on lambda (a start-vector dependent 6e-9 relative was observed for lambda = 2.6e7)
-    return bool(np.all(np.abs(a - b) <= tol * (np.abs(a) + np.abs(b)) + 1e-14 * np.maximum(a * a, b * b) + 1e-300))
+    return bool(np.all(np.abs(a - b) <= tol * (np.abs(a) + np.abs(b)) + 1e-300))
 
 
 # ---------------------------------------------------------------------------------------------------------
@@ -118,6 +141,8 @@ def make_panel(rng, tier):
         Op('strain', lambda p, x: p.strain(x['c'], xs=x['xs'], ys=x['ys'], NLterms=False), inputs=('c', 'xs', 'ys')),
         Op('stress', lambda p, x: p.stress(x['c'], xs=x['xs'], ys=x['ys'], NLterms=False), inputs=('c', 'xs', 'ys')),
         Op('calc_kt_kr', lambda p, x: list(__import__('compmech.panel.connections', fromlist=['calc_kt_kr']).calc_kt_kr(p, p, 'xcte'))),
+        Op('plot', lambda p, x: _plot(p.plot, x['c'], gridy=9, num_levels=4), kind='side', inputs=('c',)),
+        Op('plot(deformed)', lambda p, x: _plot(p.plot, x['c'], gridy=9, num_levels=4, deform_u=True, vec='u'), kind='side', inputs=('c',)),
     ]
     return desc, factory, ops, ctx
 
@@ -187,11 +212,17 @@ def make_bay(rng, tier):
         Op('calc_fext', lambda b, x: b.calc_fext(silent=True)),
         Op('get_size', lambda b, x: b.get_size()),
         Op('uvw_skin', lambda b, x: b.uvw_skin(x['c'], xs=x['xs'], ys=x['ys']), inputs=('c', 'xs', 'ys')),
+        Op('uvw_skin(grid)', lambda b, x: b.uvw_skin(x['c'], gridx=11, gridy=9), inputs=('c',)),
+        Op('plot_skin', lambda b, x: _plot(b.plot_skin, x['c'], gridy=9, num_levels=4, silent=True), kind='side', inputs=('c',)),
+        Op('plot_skin(deformed)', lambda b, x: _plot(b.plot_skin, x['c'], gridy=9, num_levels=4, deform_u=True, silent=True), kind='side', inputs=('c',)),
     ]
     if not two_d:
         ops.append(Op('calc_kA', lambda b, x: b.calc_kA(silent=True)))
     for i in two_d[:1]:
         ops.append(Op('uvw_stiffener', lambda b, x, i=i: b.uvw_stiffener(x['c'], i, region='flange', xs=x['xs'][:3] * 0.5, ys=x['ys'][:3] * 0.01), inputs=('c',)))
+        ops.append(Op('uvw_stiffener(grid)', lambda b, x, i=i: b.uvw_stiffener(x['c'], i, region='flange', gridx=11, gridy=9), inputs=('c',)))
+        ops.append(Op('plot_stiffener(deformed)', lambda b, x, i=i: _plot(b.plot_stiffener, x['c'], i, region='flange', gridy=9, num_levels=4, deform_u=True, silent=True),
+                      kind='side', inputs=('c',)))
     return desc, factory, ops, ctx
 
 
@@ -226,6 +257,8 @@ def make_shell(rng, tier):
         Op('stress(full,inc)', lambda s, x: s.stress(x['cfull'], xs=x['xs'], ts=x['ts'], inc=inc), inputs=('cfull', 'xs', 'ts')),
         Op('calc_fint(inc)', lambda s, x: np.asarray(s.calc_fint(x['c'], inc=inc, silent=True)), inputs=('c',)),
         Op('calc_kT(inc)', lambda s, x: s.calc_kT(x['c'], inc=inc, silent=True), inputs=('c',)),
+        Op('plot', lambda s, x: _plot(s.plot, x['c'], gridt=9, num_levels=4), kind='side', inputs=('c',)),
+        Op('plot(deformed)', lambda s, x: _plot(s.plot, x['c'], gridt=9, num_levels=4, deform_u=True), kind='side', inputs=('c',)),
         Op('calc_k0', lambda s, x: s.calc_k0(silent=True)),
         Op('calc_fext', lambda s, x: s.calc_fext(silent=True)),
         Op('static', lambda s, x: s.static(silent=True)),
@@ -254,7 +287,19 @@ def run_case(rng, tier, idx):
     # references: each distinct op first on a fresh object
     refs = {}
     import warnings
+    # plots are interleaving calls only: what they draw is not a result, but they are part of the histories the statement names
+    for o in [w for w in {w.name: w for w in word}.values() if w.kind == 'side']:
+        try:
+            with warnings.catch_warnings():
+                warnings.simplefilter('ignore')
+                o.fn(factory(), {k: v.copy() for k, v in ctx.items()})
+        except Exception as e:
+            c.info.setdefault('plot_ops_unavailable', {})[o.name] = '%s: %s' % (type(e).__name__, str(e)[:60])
+            word = [w for w in word if w.name != o.name]
+    c.desc['history'] = [o.name for o in word]
     for o in {w.name: w for w in word}.values():
+        if o.kind == 'side':
+            continue
         obj = factory()
         args = {k: v.copy() for k, v in ctx.items()}
         try:
@@ -273,6 +318,17 @@ def run_case(rng, tier, idx):
     obj = factory()
     for pos, o in enumerate(word):
         args = {k: v.copy() for k, v in ctx.items()}
+        if o.kind == 'side':
+            try:
+                with warnings.catch_warnings():
+                    warnings.simplefilter('ignore')
+                    o.fn(obj, args)
+                c.hit('plot_calls')
+            except Exception:
+                pass
+            for k in o.inputs:
+                c.expect('caller-owned input not modified (%s of %s.%s)' % (k, kind, o.name), np.array_equal(args[k], ctx[k]))
+            continue
         try:
             with warnings.catch_warnings():
                 warnings.simplefilter('ignore')
@@ -289,7 +345,7 @@ def run_case(rng, tier, idx):
                       'position %d of %r: %s' % (pos, c.desc['history'], got[1]))
             continue
         if o.kind == 'eig':
-            same = spectrum_close(got[1], ref[1])
+            same = spectrum_close(got[1], ref[1], buckling=o.name.startswith('lb'))
         else:
             same = got[1] == ref[1]
         c.expect('same result as the first call on a fresh object: %s.%s' % (kind, o.name), same,
